@@ -29,6 +29,7 @@ type sched struct {
 	points   int
 	maxPts   int
 	deadlock string
+	preemptions int
 }
 
 type channel struct {
@@ -80,6 +81,9 @@ func (w *World) schedPoint(what string) {
 	if len(s.threads) == 1 && s.cur.blockedOn == nil {
 		return
 	}
+	if w.inInit > 0 {
+		return // lazily run package initialisers are not part of the schedule (they run once per worker)
+	}
 	me := s.cur
 	en := s.enabled()
 	if len(en) == 0 {
@@ -90,14 +94,21 @@ func (w *World) schedPoint(what string) {
 		w.run.inconclusive = append(w.run.inconclusive, fmt.Sprintf("BOUND-HIT: more than %d scheduling points", s.maxPts))
 		panic(pathEnd{"sched-bound"})
 	}
+	// preemption bounding (CHESS): the running thread is enabled here, so switching away is a preemption;
+	// once the budget is used up the thread keeps running until it blocks or exits
+	if w.h.MaxPreemptions >= 0 && s.preemptions >= w.h.MaxPreemptions {
+		return
+	}
 	k := 0
 	if len(en) > 1 {
+		w.run.schedDependent = true
 		k = w.chooseN(len(en), "sched")
 	}
 	next := en[k]
 	if next == me {
 		return
 	}
+	s.preemptions++
 	w.switchTo(next)
 }
 
@@ -356,9 +367,12 @@ func (w *World) chanClose(fr *frame, pos token.Pos, cv value) {
 	if c.closed {
 		panic(targetPanic{v: iface{w.runtimeErrorT, "close of closed channel"}, where: w.where(fr, pos)})
 	}
+	w.schedPoint("close")
+	if c.closed {
+		panic(targetPanic{v: iface{w.runtimeErrorT, "close of closed channel"}, where: w.where(fr, pos)})
+	}
 	w.chanTouch(c)
 	c.closed = true
-	w.schedPoint("close")
 }
 
 func (w *World) selectOp(fr *frame, instr *ssa.Select) value {
